@@ -937,6 +937,36 @@ theorem bindVar_spec {h : Heap} {X : Oid} {s : SysObj} {m : List (String × Oid)
     apply getVar_of_look
     rw [look_put_ne _ _ hne, look_allocs, if_neg (Nat.lt_irrefl _), Nat.sub_self]; rfl
 
+theorem resolve_eq {h : Heap} {X : Oid} {s : SysObj} {m : List (String × Oid)}
+    (hs : h.getSys X = some s) (hm : h.getMap s.vars = some m) (name : String) :
+    resolve h X name = dictGet name m := by
+  unfold resolve; rw [hs]; dsimp only; rw [hm]
+
+/-- the same, needing nothing of the parameter tree -/
+theorem bindVar_reads {h : Heap} {X : Oid} {s : SysObj} {m : List (String × Oid)}
+    (hs : h.getSys X = some s) (hm : h.getMap s.vars = some m) (name : String) (w : VarObj) :
+    resolve (bindVar h s m name w) X name = some h.next ∧
+    (bindVar h s m name w).getVar h.next = some w ∧
+    (∀ i v, h.getVar i = some v → (bindVar h s m name w).getVar i = some v) := by
+  have lX := look_of_getSys hs
+  have lM := look_of_getMap hm
+  have hXlt := lt_next_of_look h lX
+  have hMlt := lt_next_of_look h lM
+  have hb : bindVar h s m name w = (h.allocs [.var w]).put s.vars (.vmap (dictSet name h.next m)) := rfl
+  have lM1 : (h.allocs [.var w]).look s.vars = some (.vmap m) := by rw [look_allocs_lt h _ hMlt]; exact lM
+  have hk : Keeps h X (bindVar h s m name w) := by
+    rw [hb]; exact (keeps_allocs h X _).trans (keeps_put lM1 (by intro v; simp) (by intro e; simp))
+  have hs' : (bindVar h s m name w).getSys X = some s := by
+    rw [hb, getSys_congr (look_put_ne _ _ (ne_of_look lM lX (by simp))),
+      getSys_congr (look_allocs_lt h _ hXlt)]; exact hs
+  have hm' : (bindVar h s m name w).getMap s.vars = some (dictSet name h.next m) := by
+    apply getMap_of_look
+    rw [hb, look_put, if_pos rfl,
+      if_pos (by rw [next_allocs]; exact Nat.lt_of_lt_of_le hMlt (Nat.le_add_right _ _))]
+  refine ⟨by rw [resolve_eq hs' hm', dictGet_dictSet_self], ?_, hk.keepVar⟩
+  apply getVar_of_look
+  rw [hb, look_put_ne _ _ (Nat.ne_of_lt hMlt), look_allocs, if_neg (Nat.lt_irrefl _), Nat.sub_self]; rfl
+
 theorem sysWF_intro {h : Heap} {X : Oid} {s : SysObj} {m : List (String × Oid)} {p : ParamTree}
     (hs : h.getSys X = some s) (hm : h.getMap s.vars = some m) (hp : h.getPar s.params = some p)
     (he : ∀ e ∈ m, ∃ v, h.getVar e.2 = some v) : SysWF h X := ⟨s, m, p, hs, hm, hp, he⟩
@@ -946,15 +976,43 @@ theorem varObs_eq {h : Heap} {X : Oid} {s : SysObj} {m : List (String × Oid)}
     varObs h X name = match dictGet name m with | none => none | some vid => (h.getVar vid).map (·.view) := by
   unfold varObs resolve; rw [hs]; dsimp only; rw [hm]; rfl
 
-theorem resolve_eq {h : Heap} {X : Oid} {s : SysObj} {m : List (String × Oid)}
-    (hs : h.getSys X = some s) (hm : h.getMap s.vars = some m) (name : String) :
-    resolve h X name = dictGet name m := by
-  unfold resolve; rw [hs]; dsimp only; rw [hm]
-
 theorem paramObs_eq {h : Heap} {X : Oid} {s : SysObj} {p : ParamTree}
     (hs : h.getSys X = some s) (hp : h.getPar s.params = some p) (pn : String) (d : Int) :
     paramObs h X pn d = match dictGet pn p with | none => none | some l => pget l d := by
   unfold paramObs; rw [hs]; dsimp only; rw [hp]; rfl
+
+/-- executable check of `SysWF` (for concrete heaps) -/
+def sysWFb (h : Heap) (X : Oid) : Bool :=
+  match h.getSys X with
+  | none => false
+  | some s =>
+    match h.getMap s.vars with
+    | none => false
+    | some m =>
+      match h.getPar s.params with
+      | none => false
+      | some _ => m.all (fun e => (h.getVar e.2).isSome)
+
+theorem sysWF_of_check {h : Heap} {X : Oid} (hc : sysWFb h X = true) : SysWF h X := by
+  unfold sysWFb at hc
+  cases hs : h.getSys X with
+  | none => rw [hs] at hc; cases hc
+  | some s =>
+    rw [hs] at hc
+    dsimp only at hc
+    cases hm : h.getMap s.vars with
+    | none => rw [hm] at hc; cases hc
+    | some m =>
+      rw [hm] at hc
+      dsimp only at hc
+      cases hp : h.getPar s.params with
+      | none => rw [hp] at hc; cases hc
+      | some p =>
+        rw [hp] at hc
+        dsimp only at hc
+        refine ⟨s, m, p, hs, hm, hp, fun e he => ?_⟩
+        have := List.all_eq_true.mp hc e he
+        exact Option.isSome_iff_exists.mp this
 
 /-- what one modification of `X` guarantees -/
 structure ModSpec (h : Heap) (X : Oid) (touched : List String) (isPar : Bool) (h' : Heap) : Prop where
